@@ -2,15 +2,19 @@
 (tasks created at run time by create_after creators, through the real command line); plus harness/c02_api.py
 (the selection given through doit.api.run_tasks as a dict name -> options: positional values that are absent /
 None / empty / non-empty for tasks with pos_arg at every position of the dict, every runner; judged on the closure
-computed from the declared case and compared with Model/ApiSelect.v)."""
+computed from the declared case and compared with Model/ApiSelect.v); plus harness/c02_cfg.py (where the run configuration comes from: continue / num_process /
+par_type requested on the command line, in DOIT_CONFIG of the dodo module, in doit.cfg [GLOBAL] / [run], in extra_config, the
+selection from the command line / default_tasks; through DoitMain.run; judged on the effective continue and closure computed from
+the declared case, what Run._execute received compared with Model/RunConfig.v)."""
 import json
-import runfam, delayed_cli, c02_api
+import runfam, delayed_cli, c02_api, c02_cfg
 
 
 def run(ctx):
     out = runfam.run_property(ctx, 'C02')
     delayed_cli.delayed_cli_part(ctx, out, 'C02')
     c02_api.api_part(ctx, out)
+    c02_cfg.cfg_part(ctx, out)
     return out
 
 
@@ -18,5 +22,7 @@ def replay(ctx, payload):
     case = payload.get('case') if isinstance(payload, dict) else None
     if isinstance(case, dict) and case.get('part') == 'api':
         return c02_api.replay_case(ctx, case)
+    if isinstance(case, dict) and case.get('part') == 'cfg':
+        return c02_cfg.replay_case(ctx, case)
     print(json.dumps(payload, indent=1, default=str) if isinstance(payload, dict) else payload)
     return 0
